@@ -251,7 +251,10 @@ class GFunction:
                     g_value = self.g_lts[key][i]
                     x.append(height_value)
                     y.append(g_value)
-                f = lagrange(x, y) if kind == "lagrange" else interp1d(x, y, kind=kind, fill_value=fill_value)
+                # the table is built once and serves every later request of this object, inside or outside the
+                # computed heights: it always extrapolates (a request outside the range is announced by the
+                # warning above); it used to refuse or extrapolate depending on the first request it was built for
+                f = lagrange(x, y) if kind == "lagrange" else interp1d(x, y, kind=kind, fill_value="extrapolate")
                 self.interpolation_table["g"].append(f)
             # create interpolation tables for 'D' and 'r_b' by height
             keys = list(self.r_b_values.keys())
@@ -264,7 +267,7 @@ class GFunction:
                 rb_f = lagrange(height_values, rb_values)
             else:
                 # interpolation function for rb values by H equivalent
-                rb_f = interp1d(height_values, rb_values, kind=kind, fill_value=fill_value)
+                rb_f = interp1d(height_values, rb_values, kind=kind, fill_value="extrapolate")
             self.interpolation_table["rb"] = rb_f
 
         # create the g-function by interpolating at each ln(t/ts) value
